@@ -197,3 +197,23 @@ def real_drivers(ctx, items, cats, rep, cfg=None, drivers=("binary", "vet"), chu
                                       {"kind": "program", "program": prog, "expected": sorted(exp), "observed": sorted(got2),
                                        "cats": sorted(cats or []), "cfg": cfg, "env": env_cfg, "driver": drv, "scenario": meta})
     return n
+
+
+def codes_table_check(ctx, kinds):
+    """Codes.tla (printed by MCCodes.tla) against src/codes/codes.go.  Mismatches of the given kinds are violations of the calling
+    check's property, the others are notes.  kinds: subset of {"hier", "doc", "table"}."""
+    import json
+    import subprocess
+    rc = ctx.tlc("MCCodes", "SPECIFICATION Spec\nCHECK_DEADLOCK FALSE\n", label="codes_table", collect_emit=False, count=False)
+    with open(rc["out"]) as f:
+        pc = subprocess.run([ctx.vh(), "codes-check"], stdin=f, stdout=subprocess.PIPE, stderr=subprocess.PIPE, text=True)
+    if pc.returncode not in (0, 1):
+        raise vlib.ToolError("codes-check failed: " + (pc.stderr or pc.stdout)[-600:])
+    res = json.loads(pc.stdout)
+    for m in res["mismatches"] or []:
+        if m["kind"] in kinds:
+            if len(ctx.violations) < 3:
+                ctx.violation("code table: " + m["text"], {"kind": "codes", "mismatch": m})
+        else:
+            ctx.note("code table: " + m["text"])
+    return res
